@@ -131,8 +131,22 @@ def run_runner_case(case: dict[str, Any]) -> dict[str, Any]:
                 log.append(["reg", r["id"], r["pass"]])
 
         await register(regs[:half])
-        for _ in range(comp.get("svc", 0)):
-            await start_service_task(idle_service, "idle")
+        for k in range(comp.get("svc", 0)):
+            if (idx + k) % 2:
+                # a service that is told to stop through a flag it polls; the teardown action is the bound method of a
+                # built-in object (`flags.clear`)
+                flags = [1]
+
+                async def polling_service(flags: list[int] = flags) -> None:
+                    try:
+                        while flags:
+                            await anyio.sleep(TICK / 4)
+                    finally:
+                        log.append(["svcStopped"])
+
+                await start_service_task(polling_service, "polling", teardown_action=flags.clear)
+            else:
+                await start_service_task(idle_service, "idle")
         if idx == at:
             if kind == "startupFail":
                 raise EXN[1]()
